@@ -28,12 +28,16 @@ def _txs(case):
     n = case['n']; salt = case['salt']; mask = case['wit_mask']
     txs = []
     for i in range(n):
-        wit = [[bytes([i % 256, salt % 256])]] if (mask >> (i % 64)) & 1 and case['wit'] else None
+        # witness stacks of several shapes: one item, one EMPTY item (still a non-empty stack), two items one of them empty
+        wit = [[[bytes([i % 256, salt % 256])], [b''], [b'', bytes([i % 256])], [b'', b'']][(i + salt) % 4]] if (mask >> (i % 64)) & 1 and case['wit'] else None
         # stripped sizes 60..72 bytes (among them the 64 bytes of an inner merkle node), chosen by (i, salt)
-        txs.append({'version': 1, 'vin': [(H.dsha(b'%d/%d' % (salt, i)), i, bytes([0x51] * ((i + salt) % 7)), 0xffffffff - i)],
+        txs.append({'version': [1, 2, -1, -2 ** 31, 2 ** 31 - 1, 0][(i + salt // 3) % 6] if salt % 5 == 0 else 1, 'vin': [(H.dsha(b'%d/%d' % (salt, i)), i, bytes([0x51] * ((i + salt) % 7)), 0xffffffff - i)],
                     'vout': [(i, b'\x51' * ((i * 3 + salt // 7) % 7))], 'wit': wit, 'locktime': 0})
     for dst, src in case.get('dups', []):
         txs[dst % n] = txs[src % n]
+        if (dst + src + salt) % 3 == 0 and dst % n != 0:
+            # the same transaction once more with OTHER witness data: same txid, different wtxid, different size
+            txs[dst % n] = dict(txs[src % n], wit=[[b'other', bytes([salt % 256]) * (salt % 9)]])
     return txs
 
 
